@@ -26,13 +26,16 @@ fn main() {
     let mut fails = 0u64;
     let mut evaluations = 0u64;
     let mut loaded: Option<Loaded> = None;
-    const SHAPES: usize = 10;
+    const SHAPES: usize = 14;
     for idx in 0..a.n {
         if idx % 10 == 0 || loaded.is_none() { loaded = Some(load_graph(&gen_graph(&mut r, true))); }
         let ld = loaded.as_ref().unwrap();
         let (x, y) = (r.range(1, 20), r.range(1, 20));
         let mut ordered = false;
         let mut direct_only: Option<String> = None;
+        // lower bounds known by construction: rows some plan node certainly emits, a collection certainly built, rows per outer row of a CALL
+        let (mut min_rows, mut min_coll, mut per_outer) = (0usize, 0usize, 0usize);
+        let mut known: Option<&str> = None;
         // corpus first: the probe of DESIGN.md §8 (truncated result under DISTINCT before 5cbdabf)
         let shape = if idx == 0 { 1 } else { idx % SHAPES };
         let (x, y) = if idx == 0 { (20, 20) } else { (x, y) };
@@ -46,18 +49,55 @@ fn main() {
             6 => ("union", Query::Union(false, Box::new(Query::Single(vec![Clause::Unwind(range_ex(1, x), 0), Clause::Return(ret(vec![(1, Ex::Var(0))]))])), Box::new(Query::Single(vec![Clause::Unwind(range_ex(1, y), 0), Clause::Return(ret(vec![(1, Ex::Var(0))]))])))),
             7 => ("expand-x-unwind", Query::Single(vec![Clause::Match(false, vec![hop(0, 1, 2, Dir::Out)], None), Clause::Unwind(range_ex(1, x), 3), Clause::Return(ret(vec![(4, Ex::Var(0)), (5, Ex::Var(2)), (6, Ex::Var(3))]))])),
             8 => ("two-hop-count", Query::Single(vec![Clause::Match(false, vec![Pattern { start: NPat { var: 0, labels: vec![] }, hops: vec![(RPat { var: 1, types: vec![], dir: Dir::Both }, NPat { var: 2, labels: vec![] }), (RPat { var: 3, types: vec![], dir: Dir::Both }, NPat { var: 4, labels: vec![] })] }], None), Clause::Agg(vec![(5, Ex::Var(0))], vec![(6, Agg::CountStar)], ident_proj(&[5, 6]), None, true)])),
-            _ => { direct_only = Some(format!("MATCH (v0)-[*1..{}]-(v2) RETURN v0 AS v3, count(*) AS v4", 1 + x % 3)); ("var-length-count", Query::Single(vec![])) }
+            9 => { direct_only = Some(format!("MATCH (v0)-[*1..{}]-(v2) RETURN v0 AS v3, count(*) AS v4", 1 + x % 3)); ("var-length-count", Query::Single(vec![])) }
+            10 => {
+                // CALL { } subquery: y rows per outer row
+                per_outer = y as usize; min_rows = (x * y) as usize; min_coll = x.max(y) as usize;
+                direct_only = Some(format!("UNWIND range(1, {}) AS v0 CALL {{ WITH v0 UNWIND range(1, {}) AS v1 RETURN v1 }} RETURN v0 AS v2, v1 AS v3", x, y));
+                ("call-subquery", Query::Single(vec![]))
+            }
+            11 => {
+                // x outer rows, each subquery run emits y+3 rows of which one reaches the outer query: the query-wide sum
+                // x * (y+3) exceeds a limit that no single subquery run exceeds
+                let z = y + 3;
+                min_rows = (x * z) as usize; min_coll = x.max(z) as usize; per_outer = 1;
+                direct_only = Some(format!("UNWIND range(1, {}) AS v0 CALL {{ WITH v0 UNWIND range(1, {}) AS v1 RETURN count(v1) AS v2 }} RETURN v0 AS v3, v2 AS v4", x, z));
+                ("call-aggregating-subquery", Query::Single(vec![]))
+            }
+            12 => {
+                // EXISTS { } pulls the first row of the subquery, which appears only after y+3 unwound rows, once per outer row
+                known = Some("K-C33-exists");
+                let z = y + 3;
+                min_rows = (x * z) as usize; min_coll = x.max(z) as usize;
+                direct_only = Some(format!("UNWIND range(1, {x}) AS v0 WITH v0 WHERE EXISTS {{ WITH v0 UNWIND range(1, {n}) AS v1 WITH v1 WHERE v1 >= {n} RETURN v1 }} RETURN v0 AS v2", x = x, n = z));
+                ("exists-subquery-rows", Query::Single(vec![]))
+            }
+            _ => {
+                // K-C33-exists: a limit error raised inside EXISTS { } becomes NULL and the row is dropped (same root as K-C22-exists)
+                known = Some("K-C33-exists");
+                min_coll = (5 * y) as usize;
+                direct_only = Some(format!("UNWIND [1, 2] AS v0 WITH v0 WHERE EXISTS {{ WITH v0 RETURN size(range(1, {})) AS v1 }} RETURN v0 AS v2", 5 * y));
+                ("exists-subquery-collection", Query::Single(vec![]))
+            }
         };
+        match shape {
+            0 | 1 => { min_rows = (x * y) as usize; min_coll = x.max(y) as usize; }
+            2 => { min_rows = (3 * x) as usize; min_coll = (3 * x) as usize; }
+            3 | 4 | 5 => { min_rows = (2 * x) as usize; min_coll = (2 * x) as usize; }
+            6 => { min_rows = (x + y) as usize; min_coll = x.max(y) as usize; }
+            _ => {}
+        }
         let text = direct_only.clone().unwrap_or_else(|| cy_query(&q));
         let mir = match r.below(4) { 0 => r.range(1, 10), 1 => r.range(10, 60), 2 => r.range(60, 400), _ => 1_000_000 } as usize;
         let mci = match r.below(3) { 0 => r.range(1, 15), 1 => r.range(15, 60), _ => 1_000_000 } as usize;
         let (mir, mci) = if idx == 0 { (50, 1_000_000) } else { (mir, mci) };
         let o_full = run_query(&ld.db, &text, &make_params(&[], None));
-        let opts = ExecuteOptions { max_intermediate_rows: mir, max_collection_items: mci, soft_timeout_ms: 0, max_apply_rows_per_outer: 200_000 };
+        let cap = match r.below(4) { 0 => r.range(1, 12) as usize, 1 => usize::MAX, 2 => usize::MAX - 1, _ => 200_000 };
+        let opts = ExecuteOptions { max_intermediate_rows: mir, max_collection_items: mci, soft_timeout_ms: 0, max_apply_rows_per_outer: cap };
         let o_lim = run_query(&ld.db, &text, &make_params(&[], Some(opts)));
         evaluations += 2;
         *hist.entry(format!("shape:{}", sname)).or_insert(0) += 1;
-        let input = json!({"query": text, "graph": js_graph(&ld.g), "max_intermediate_rows": mir, "max_collection_items": mci, "unlimited": js_outcome(&o_full), "limited": js_outcome(&o_lim)});
+        let input = json!({"query": text, "graph": js_graph(&ld.g), "max_intermediate_rows": mir, "max_collection_items": mci, "max_apply_rows_per_outer": cap.to_string(), "unlimited": js_outcome(&o_full), "limited": js_outcome(&o_lim)});
         if idx < 4 { rep.case(idx, input.clone()); }
         let full_rows = match &o_full {
             Outcome::Rows(rows) => rows.clone(),
@@ -65,13 +105,25 @@ fn main() {
         };
         nontrivial.insert(format!("{}|{}|{}", text, mir, mci));
         // ---- direct search: complete result or resource-limit error, nothing else
+        // the limits must be enforced: if by construction more rows are emitted / a larger collection is built / a CALL returns more
+        // rows per outer row than allowed, the outcome must be the resource-limit error (also inside CALL { } and EXISTS { })
+        let must_fail = min_rows.max(full_rows.len()) > mir || min_coll > mci || per_outer > cap;
+        if must_fail { *hist.entry("limits:certainly-exceeded".into()).or_insert(0) += 1; }
         match &o_lim {
             Outcome::Rows(rows) => {
-                *hist.entry("limited:complete-result".into()).or_insert(0) += 1;
                 let same = if ordered { rows.iter().map(|x| canon_row(x)).collect::<Vec<_>>() == full_rows.iter().map(|x| canon_row(x)).collect::<Vec<_>>() } else { multiset(rows) == multiset(&full_rows) };
+                // the known class covers only its symptom: rows are MISSING because the limit error inside EXISTS { } became NULL;
+                // a complete result although a limit is certainly exceeded (limit not enforced) is never tagged
+                let tag = if !same && rows.len() < full_rows.len() { known } else { None };
+                if must_fail {
+                    fails += 1;
+                    rep.fail(idx, tag, &format!("a limit is certainly exceeded (rows >= {}, collection >= {}, rows per outer >= {}) but the query returns {} of {} rows and no resource-limit error", min_rows.max(full_rows.len()), min_coll, per_outer, rows.len(), full_rows.len()), input.clone());
+                    continue;
+                }
+                *hist.entry("limited:complete-result".into()).or_insert(0) += 1;
                 if !same {
                     fails += 1;
-                    rep.fail(idx, None, &format!("the limited run returns {} rows that are not the complete result ({} rows): silently truncated or altered", rows.len(), full_rows.len()), input.clone());
+                    rep.fail(idx, tag, &format!("the limited run returns {} rows that are not the complete result ({} rows): silently truncated or altered", rows.len(), full_rows.len()), input.clone());
                 }
             }
             Outcome::Err(3, m) => {
@@ -90,7 +142,7 @@ fn main() {
         "evaluations": evaluations,
         "corr_cases": cw.total,
         "distinct_nontrivial": nontrivial.len(),
-        "rule": "10 query shapes with large intermediate results (cartesian UNWIND of ranges with and without DISTINCT, grouped aggregation, collect, ORDER BY+LIMIT, SKIP, UNION, expansion x UNWIND, two undirected hops + count, variable-length expansion + count) on random graphs, each run with default options and with random max_intermediate_rows (1..400 or off) and max_collection_items (1..60 or off), soft timeout off; non-trivial = unlimited run succeeds, distinct by (query, limits)",
+        "rule": "14 query shapes with large intermediate results (CALL { } subqueries with many rows per outer row and with an aggregating subquery, EXISTS { } subqueries whose first row / collection needs many items, cartesian UNWIND of ranges with and without DISTINCT, grouped aggregation, collect, ORDER BY+LIMIT, SKIP, UNION, expansion x UNWIND, two undirected hops + count, variable-length expansion + count) on random graphs, each run with default options and with random max_intermediate_rows (1..400 or off) and max_collection_items (1..60 or off) and max_apply_rows_per_outer (1..12, 200000, usize::MAX-1, usize::MAX), soft timeout off; besides complete-or-limit-error the limit must fire when it is exceeded by construction; non-trivial = unlimited run succeeds, distinct by (query, limits)",
         "histogram": hist,
         "direct_failures": fails,
         "case_files": cw.files.iter().map(|p| p.to_string_lossy().to_string()).collect::<Vec<_>>(),
